@@ -25,31 +25,27 @@ package core
 //@   ensures TreeWF()
 //@   ensures ret == nil ==> core.currentContextDirective == d
 //@   ensures ret == nil ==> exists k :: k >= 0
-//@        && (forall j :: 0 <= j && j < k ==> anc(j) != nil && !allowedCtx(anc(j).type_, d.type_) && !anc(j).HasExplicitContext)
-//@        && ( (anc(k) != nil && allowedCtx(anc(k).type_, d.type_)
-//@                && !(isHTTPMethod(d.type_) && has(d.namedParameters, "Path") && d.namedParameters["Path"] != "" && anc(k).type_ == 7)
+//@        && (forall j :: 0 <= j && j < k ==> anc(j) != nil && !admits(anc(j), d) && !anc(j).HasExplicitContext)
+//@        && ( (anc(k) != nil && admits(anc(k), d)
 //@                && d.Parent == anc(k) && seqapp(anc(k).Children, old(anc(k).Children), d) && *root == old(*root)
 //@                && (forall x *directive.Directive :: x != anc(k) ==> x.Children == old(x.Children)))
-//@          || (anc(k) != nil && allowedCtx(anc(k).type_, d.type_)
-//@                && isHTTPMethod(d.type_) && has(d.namedParameters, "Path") && d.namedParameters["Path"] != "" && anc(k).type_ == 7
-//@                && !anc(k).HasExplicitContext
-//@                && d.Parent == old(d.Parent) && seqapp(*root, old(*root), d) && (forall x *directive.Directive :: x.Children == old(x.Children)))
 //@          || (anc(k) == nil && rootAllowed(d.type_)
 //@                && d.Parent == old(d.Parent) && seqapp(*root, old(*root), d) && (forall x *directive.Directive :: x.Children == old(x.Children))) )
 //@   ensures ret != nil ==> exists k :: k >= 0
-//@        && (forall j :: 0 <= j && j < k ==> anc(j) != nil && !allowedCtx(anc(j).type_, d.type_) && !anc(j).HasExplicitContext)
+//@        && (forall j :: 0 <= j && j < k ==> anc(j) != nil && !admits(anc(j), d) && !anc(j).HasExplicitContext)
 //@        && ( (anc(k) == nil && !rootAllowed(d.type_))
-//@          || (anc(k) != nil && !allowedCtx(anc(k).type_, d.type_) && anc(k).HasExplicitContext)
-//@          || (anc(k) != nil && allowedCtx(anc(k).type_, d.type_) && anc(k).HasExplicitContext
-//@                && isHTTPMethod(d.type_) && has(d.namedParameters, "Path") && d.namedParameters["Path"] != "" && anc(k).type_ == 7) )
+//@          || (anc(k) != nil && !admits(anc(k), d) && anc(k).HasExplicitContext) )
 //@   ensures ret != nil ==> d.Parent == old(d.Parent) && *root == old(*root) && (forall x *directive.Directive :: x.Children == old(x.Children))
 //@   ensures [C02] ret != nil ==> ret.file == d.keywordCoords.file && ret.index == d.keywordCoords.begin
 //@   loop 1 invariant core.currentContextDirective == anc(iter) && d.Parent == old(d.Parent) && *root == old(*root)
 //@   loop 1 invariant forall x *directive.Directive :: x.Children == old(x.Children)
-//@   loop 1 invariant forall j :: 0 <= j && j < iter ==> anc(j) != nil && !allowedCtx(anc(j).type_, d.type_) && !anc(j).HasExplicitContext
+//@   loop 1 invariant forall j :: 0 <= j && j < iter ==> anc(j) != nil && !admits(anc(j), d) && !anc(j).HasExplicitContext
 //@   loop 1 invariant core.currentContextDirective != nil ==> 0 <= core.currentContextDirective.depth
 //@   loop 1 decreases core.currentContextDirective == nil ? 0 : core.currentContextDirective.depth + 1
 //@   loop 1 frame core
+// a directive admits a child if the kind table allows it; a URL does not admit a method that carries its own path (such a
+// method is the URL's sibling, wherever the URL stands)
+//@ pred admits(a *directive.Directive, d *directive.Directive) = allowedCtx(a.type_, d.type_) && !(isHTTPMethod(d.type_) && has(d.namedParameters, "Path") && d.namedParameters["Path"] != "" && a.type_ == 7)
 
 //@ func (*JApiCore).japiError
 //@   tag C02 C01
